@@ -12,6 +12,7 @@ import (
 	"path/filepath"
 	"sort"
 	"strings"
+	"syscall"
 )
 
 // Violation is a property failure observed on the IMPLEMENTATION.
@@ -50,7 +51,27 @@ var components = map[string]Component{}
 
 func Register(c Component) { components[c.Name] = c }
 
+// Out is the harness's own standard output.  File descriptor 1 itself is pointed at /dev/null
+// in Main because every pg-bifrost package logs to os.Stdout.
+var Out = os.Stdout
+
+func silenceStdout() {
+	orig, err := syscall.Dup(1)
+	if err != nil {
+		return
+	}
+	null, err := os.OpenFile(os.DevNull, os.O_WRONLY, 0)
+	if err != nil {
+		return
+	}
+	if err := syscall.Dup3(int(null.Fd()), 1, 0); err != nil {
+		return
+	}
+	Out = os.NewFile(uintptr(orig), "harness-stdout")
+}
+
 func Main() {
+	silenceStdout()
 	comp := flag.String("component", "", "component to drive")
 	seed := flag.Int64("seed", 1, "PRNG seed")
 	n := flag.Int("n", 100, "number of generated cases")
@@ -68,7 +89,7 @@ func Main() {
 			names = append(names, k)
 		}
 		sort.Strings(names)
-		fmt.Println(strings.Join(names, " "))
+		fmt.Fprintln(Out, strings.Join(names, " "))
 		return
 	}
 	c, ok := components[*comp]
@@ -84,9 +105,21 @@ func Main() {
 		os.Exit(2)
 	}
 	vfile := filepath.Join(*out, "cases_"+c.Name+".v")
-	if err := os.WriteFile(vfile, []byte(casesV), 0o644); err != nil {
-		fmt.Fprintln(os.Stderr, err)
-		os.Exit(2)
+	shards := shard(casesV, rep.Evaluations, 48)
+	if len(shards) <= 1 {
+		if err := os.WriteFile(vfile, []byte(casesV), 0o644); err != nil {
+			fmt.Fprintln(os.Stderr, err)
+			os.Exit(2)
+		}
+	} else {
+		// independent shards cases_<K>_<first index>.v; ./check runs coqc on them in parallel
+		for _, sh := range shards {
+			f := filepath.Join(*out, fmt.Sprintf("cases_%s_%d.v", c.Name, sh.base))
+			if err := os.WriteFile(f, []byte(sh.text), 0o644); err != nil {
+				fmt.Fprintln(os.Stderr, err)
+				os.Exit(2)
+			}
+		}
 	}
 	rep.CasesFile = vfile
 	js, _ := json.MarshalIndent(rep, "", " ")
@@ -127,7 +160,7 @@ func doReplay(path, comp string) int {
 		fmt.Fprintln(os.Stderr, err)
 		return 2
 	}
-	fmt.Printf("replay of %s: property=%s kind=%s\n%s\n", path, f.Property, f.Kind, f.What)
+	fmt.Fprintf(Out, "replay of %s: property=%s kind=%s\n%s\n", path, f.Property, f.Kind, f.What)
 	if comp == "" {
 		comp = f.Component
 	}
@@ -137,12 +170,43 @@ func doReplay(path, comp string) int {
 		if !ok || c.Replay == nil || len(cs) == 0 || string(cs) == "null" {
 			return
 		}
-		fmt.Printf("--- %s on the implementation ---\n%s\n", name, c.Replay(cs))
+		fmt.Fprintf(Out, "--- %s on the implementation ---\n%s\n", name, c.Replay(cs))
 	}
 	run(comp, f.Case)
 	for _, br := range f.Broken {
-		fmt.Printf("no longer checks: %s %s\n", br.Kind, br.Name)
+		fmt.Fprintf(Out, "no longer checks: %s %s\n", br.Kind, br.Name)
 		run(br.Name, br.Case)
 	}
 	return 0
+}
+
+type shardT struct {
+	base int
+	text string
+}
+
+// shard splits a cases file of the standard shape
+//   <header> Definition cases : list T := [\n c0;\n c1 ... \n].\n<footer>
+// into files of at most per cases.  It gives up (one file) unless the body splits into exactly
+// n pieces on ";\n".
+func shard(v string, n, per int) []shardT {
+	i := strings.Index(v, ":= [\n")
+	j := strings.LastIndex(v, "\n].\n")
+	if i < 0 || j < 0 || j < i || n <= per {
+		return nil
+	}
+	header, body, footer := v[:i+len(":= [\n")], v[i+len(":= [\n"):j], v[j:]
+	parts := strings.Split(body, ";\n")
+	if len(parts) != n {
+		return nil
+	}
+	var out []shardT
+	for b := 0; b < len(parts); b += per {
+		e := b + per
+		if e > len(parts) {
+			e = len(parts)
+		}
+		out = append(out, shardT{b, header + strings.Join(parts[b:e], ";\n") + footer})
+	}
+	return out
 }
